@@ -5,7 +5,8 @@ CFG = {
     "check_vo": "theories/Check/C08.vo", "prop_vo": "theories/Properties/C08.vo",
     "prop_file": "theories/Properties/C08.v",
     "theory_files": ["theories/Base/Bytes.v", "theories/Base/BytesProofs.v", "theories/Base/BytesMore.v",
-                     "theories/Formats/PlyRead.v", "theories/Formats/PlyReadSpec.v", "theories/Formats/PlyReadProofs.v", "theories/Formats/PlyReadMesh.v"],
+                     "theories/Formats/PlyRead.v", "theories/Formats/PlyReadSpec.v", "theories/Formats/PlyReadProofs.v", "theories/Formats/PlyReadMesh.v",
+                     "theories/Formats/PlyText.v", "theories/Formats/PlyTextProofs.v"],
     "level_text": "Coq theorems about an executable model of ply.ReadMesh (header parser, per-property offsets, group "
                   "readers, unclaimed scalars, list readers, quad fan) against a reference encoder of the PLY "
                   "specification's grammar, for every property list / record / format; the model is tied to the Go "
